@@ -4,7 +4,9 @@
 (* the racing state callback) returned or the watchdog expired: final           *)
 (* connection and signaling state, callers that did not return, the error class *)
 (* of each negotiation-changing call, and for the sequential graceful runs how  *)
-(* many more goroutines exist than before the pair was created.                 *)
+(* many more goroutines exist than before the pair was created.  ret: a closer  *)
+(* returned; busy = goroutines of the connection the application still keeps    *)
+(* inside an operation / a message handler at that moment.                      *)
 EXTENDS TraceKit
 
 VARIABLES pos, viol, cnt, sawClosed
@@ -17,7 +19,10 @@ Preds(e) ==
    P("C21", "NoStateAfterClosed", e.ev = "conn" /\ e.ordered, sawClosed => e.to = "closed"),
    P("C21", "MutatorsRejected", en /\ Len(e.hung) = 0,
         \A i \in 1..Len(e.mutators) : e.mutators[i] = "InvalidStateError"),
-   P("C21", "NoGoroutineLeft", en /\ e.census, e.leak = 0)
+   P("C21", "NoGoroutineLeft", en /\ e.census, e.leak = 0),
+   \* a GracefulClose that returned found no goroutine of the connection in the middle of an operation
+   \* of the queue or of a data-channel handler
+   P("C21", "GracefulWaits", e.ev = "ret" /\ e.graceful /\ e.worker # "", e.busy = 0)
   }
 
 Init == pos = 1 /\ viol = {} /\ cnt = EmptyCount /\ sawClosed = FALSE
